@@ -15,11 +15,11 @@ const heimdallPrefix = "github.com/dadrus/heimdall/internal/"
 
 // panicInfo is the diagnosis of a panic that escaped an entry point.
 type panicInfo struct {
-	Explicit bool  // the panic value is a string: an explicit panic("...") call
-	Value string   // rendered panic value
-	Func  string   // innermost heimdall function on the panicking stack
-	Where string   // file:line of that frame
-	Top   []string // innermost frames (function file:line), runtime frames skipped
+	Explicit bool     // the panic value is a string: an explicit panic("...") call
+	Value    string   // rendered panic value
+	Func     string   // innermost heimdall function on the panicking stack
+	Where    string   // file:line of that frame
+	Top      []string // innermost frames (function file:line), runtime frames skipped
 }
 
 func (p *panicInfo) String() string {
